@@ -277,16 +277,63 @@ def r3_prince_folder(ctx, rule):
 
 
 def r4_prince_tally(ctx, rule):
+    """prince_evaluation tallies the label of EVERY section, once per occurrence.  Accepted spellings: the loop
+    `for s in sections: counter[s[1]] += 1` (also with an unpacked target) and `counter.update(<list or generator of the labels>)`
+    (directly or through a local); a set / dict of labels counts each distinct label once per password (seed C06-i) and a filter
+    or early exit skips sections - both are violations; anything else is not decided."""
     fn = ctx.fn(PM)
     ps = params(fn)
-    loops = [n for n in fn.body if isinstance(n, ast.For)]
-    good = len(loops) == 1 and U(loops[0].iter) == ps[1] and len(loops[0].body) == 1 \
-        and U(loops[0].body[0]) == '%s[%s[1]] += 1' % (ps[0], U(loops[0].target))
-    if good:
-        ctx.ok(rule, PM, "every section's label is tallied once")
-    else:
-        ctx.bad(rule, PM, 'tally shape ' + U(fn.body[-1])[:80], 'count_prince[label] += 1 for every section', None, fn)
+    cnt, secs = ps[0], ps[1]
+    stores = stores_in(fn)
 
+    def label_of(target, elt):
+        """is `elt` the label (position 1) of the section bound to `target`?"""
+        if isinstance(target, ast.Name):
+            return U(elt) == '%s[1]' % target.id
+        if isinstance(target, (ast.Tuple, ast.List)) and len(target.elts) == 2 and isinstance(target.elts[1], ast.Name):
+            return U(elt) == target.elts[1].id
+        return False
+    body = [s_ for s_ in fn.body if not (isinstance(s_, ast.Expr) and isinstance(s_.value, ast.Constant))]
+    verdict, what = None, U(body[-1])[:80] if body else ''
+    loops = [n for n in body if isinstance(n, ast.For)]
+    if len(loops) == 1 and U(loops[0].iter) == secs:
+        lp = loops[0]
+        if any(isinstance(x, (ast.Break, ast.Continue, ast.Return, ast.If)) for x in walk_stmts(lp.body)):
+            verdict, what = 'bad', 'sections skipped inside the tally loop'
+        elif len(lp.body) == 1 and isinstance(lp.body[0], ast.AugAssign) and isinstance(lp.body[0].op, ast.Add) \
+                and const(lp.body[0].value) == 1 and isinstance(lp.body[0].target, ast.Subscript) \
+                and U(lp.body[0].target.value) == cnt and label_of(lp.target, lp.body[0].target.slice):
+            verdict = 'ok'
+    ups = [c for c in calls_in(fn) if isinstance(c.func, ast.Attribute) and c.func.attr == 'update' and U(c.func.value) == cnt and len(c.args) == 1]
+    if verdict is None and len(ups) == 1 and len(loops) == 1 and isinstance(ups[0].args[0], ast.Name) and U(loops[0].iter) == secs:
+        # the comprehension written out: labels = []; for s in sections: labels.append(s[1]); counter.update(labels)
+        nm = ups[0].args[0].id
+        lp = loops[0]
+        inits = [v for s_, v in stores.get(nm, []) if v is not None]
+        if len(stores.get(nm, [])) == 1 and len(inits) == 1 and U(inits[0]) == '[]' and len(lp.body) == 1 \
+                and isinstance(lp.body[0], ast.Expr) and isinstance(lp.body[0].value, ast.Call) \
+                and U(lp.body[0].value.func) == '%s.append' % nm and len(lp.body[0].value.args) == 1 \
+                and label_of(lp.target, lp.body[0].value.args[0]) and body.index(lp) < body.index(next(b_ for b_ in body if ups[0] in ast.walk(b_))):
+            verdict = 'ok'
+    if verdict is None and len(ups) == 1 and not loops:
+        arg = expand(fn, ups[0].args[0], stores)
+        what = 'count_prince.update(%s)' % U(arg)[:60]
+        if isinstance(arg, (ast.SetComp, ast.DictComp, ast.Set, ast.Dict)) or \
+                (isinstance(arg, ast.Call) and call_name(arg) in ('set', 'frozenset', 'dict', 'dict.fromkeys')):
+            verdict = 'bad'
+        elif isinstance(arg, (ast.ListComp, ast.GeneratorExp)) and len(arg.generators) == 1 and U(arg.generators[0].iter) == secs:
+            g = arg.generators[0]
+            if g.ifs:
+                verdict = 'bad'
+            elif label_of(g.target, arg.elt):
+                verdict = 'ok'
+    if verdict == 'ok':
+        ctx.ok(rule, PM, "every section's label is tallied once per occurrence")
+    elif verdict == 'bad':
+        ctx.bad(rule, PM, 'tally shape ' + what, 'count_prince[label] += 1 for every section: Prince/grammar.txt holds the relative '
+                'frequency of each label over all sections of all passwords', None, fn)
+    else:
+        ctx.unk(rule, PM, 'the way prince_evaluation tallies the section labels is not recognised: ' + what)
 
 def r5_stdout(ctx, rule):
     return c09.r1_single_stdout_writer(ctx, rule, entry_rel='prince_ling.py')
